@@ -9,7 +9,7 @@ use crate::server::job::{Job, JobTaskState, StartedTaskData, SubmittedJobDescrip
 use crate::server::state::State;
 use crate::transfer::messages::{JobDescription, SubmitRequest};
 use crate::worker::start::RunningTaskContext;
-use chrono::Utc;
+use chrono::{DateTime, Utc};
 use std::path::Path;
 use tako::gateway::TaskSubmit;
 use tako::resources::ResourceDescriptor;
@@ -38,6 +38,8 @@ struct RestorerJob {
     submit_descs: Vec<SubmittedJobDescription>,
     tasks: Map<JobTaskId, RestorerTaskInfo>,
     is_open: bool,
+    /// Time of the record that has created the job
+    submission_date: DateTime<Utc>,
     cancel_reason: String,
     n_failed_tasks: JobTaskCount,
     /// The limit of failures of the job was exceeded when the job had this many submits and
@@ -64,6 +66,7 @@ impl RestorerJob {
     ) -> crate::Result<Vec<TaskSubmit>> {
         log::debug!("Restoring job {job_id}");
         let mut job = Job::new(job_id, self.job_desc, self.is_open);
+        job.submission_date = self.submission_date;
         if !self.cancel_reason.is_empty() {
             job.cancel_reason = Some(self.cancel_reason);
         }
@@ -139,12 +142,13 @@ impl RestorerJob {
         Ok(result)
     }
 
-    pub fn new(job_desc: JobDescription, is_open: bool) -> Self {
+    pub fn new(job_desc: JobDescription, is_open: bool, submission_date: DateTime<Utc>) -> Self {
         RestorerJob {
             job_desc,
             submit_descs: Vec::new(),
             tasks: Map::new(),
             is_open,
+            submission_date,
             cancel_reason: String::default(),
             n_failed_tasks: 0,
             n_submits_to_abort: 0,
@@ -296,7 +300,7 @@ impl StateRestorer {
                     log::debug!("Replaying: JobTasksCreated {job_id}");
                     let submit_request: SubmitRequest = serialized_desc.deserialize()?;
                     if closed_job {
-                        let mut job = RestorerJob::new(submit_request.job_desc, false);
+                        let mut job = RestorerJob::new(submit_request.job_desc, false, event.time);
                         job.add_submit(SubmittedJobDescription::at(
                             event.time,
                             submit_request.submit_desc,
@@ -490,7 +494,7 @@ impl StateRestorer {
                 EventPayload::ServerStart { server_uid } => self.server_uid = server_uid,
                 EventPayload::ServerStop => { /* Do nothing */ }
                 EventPayload::JobOpen(job_id, job_description) => {
-                    let job = RestorerJob::new(job_description, true);
+                    let job = RestorerJob::new(job_description, true, event.time);
                     self.add_job(job_id, job);
                 }
                 EventPayload::JobClose(job_id) => {
